@@ -519,6 +519,12 @@ pub fn parse<S: Signals>(env: &Env<S>, args: Vec<Field>) -> Result<Command, Erro
             debug_assert_eq!(arg.value, "--");
             break;
         }
+        if options.starts_with('-') {
+            // The kill built-in has no long options. In particular, `--1` must
+            // not be taken for the obsolete `-SIGNAL` syntax with a negative
+            // signal number.
+            return Err(Error::UnknownOption(arg));
+        }
 
         // If the first character that is not a flag option (`l` or `v`) is not
         // an option taking an argument (`s` or `n`) either, the argument is not
